@@ -96,3 +96,31 @@ pub fn hash_hex(h: &[ChangeHash]) -> Vec<String> {
 pub fn tail(log: &[String], n: usize) -> Vec<String> {
     log.iter().rev().take(n).rev().cloned().collect()
 }
+
+/// Observational equality of two documents: heads, change hashes, OBS snapshot,
+/// missing deps. Returns a description of the first difference.
+pub fn docs_differ(a: &mut AutoCommit, b: &mut AutoCommit) -> Option<String> {
+    let (ha, hb) = (heads_sorted(a), heads_sorted(b));
+    if ha != hb {
+        return Some(format!("heads differ: {:?} vs {:?}", hash_hex(&ha), hash_hex(&hb)));
+    }
+    let (ca, cb) = (hashes_sorted(a), hashes_sorted(b));
+    if ca != cb {
+        return Some(format!("change sets differ: {} vs {} changes", ca.len(), cb.len()));
+    }
+    let (mut ma, mut mb) = (a.get_missing_deps(&[]), b.get_missing_deps(&[]));
+    ma.sort();
+    mb.sort();
+    if ma != mb {
+        return Some(format!("missing deps differ: {:?} vs {:?}", hash_hex(&ma), hash_hex(&mb)));
+    }
+    let oa = crate::obs::observe_opts(a, None, false);
+    let ob = crate::obs::observe_opts(b, None, false);
+    if let Some(e) = oa.core_errors().first() {
+        return Some(format!("left document reads inconsistently: {e}"));
+    }
+    if let Some(e) = ob.core_errors().first() {
+        return Some(format!("right document reads inconsistently: {e}"));
+    }
+    crate::obs::first_diff(&oa.snap, &ob.snap).map(|d| format!("state differs {d}"))
+}
